@@ -12,7 +12,10 @@ RULE = ("schemas whose root carries unevaluatedProperties / unevaluatedItems nex
         "applicators allOf, anyOf, oneOf, not, if/then/else, dependentSchemas, $ref, $dynamicRef around properties, patternProperties, "
         "additionalProperties, prefixItems, items, contains and nested unevaluated*; instances: every subset of 4 names / arrays of "
         "0..4 items from a pool of 3 values, so that an extra property / item is the only possible cause of failure. The official "
-        "unevaluated* cases run first. Non-trivial: >= 1 in-place applicator; distinct = operation text")
+        "unevaluated* cases run first. Also: deep evaluation (producers 25..45 single-branch in-place applications / $ref hops below the "
+        "unevaluated* keyword; the closed recursive tree on chains of 10..22 nodes; 3 %) and dynamic extension points ($dynamicRef to a "
+        "$dynamicAnchor overridden by 1..2 extension resources, each embedded or Loader-supplied, the override an anyOf / oneOf with "
+        "overlapping branches; 6 %). Non-trivial: >= 1 in-place applicator; distinct = operation text")
 ITEMS = [Num("1"), "a", True]
 
 
